@@ -67,7 +67,7 @@ func ruleClampSymmetry(r *Run) {
 			var minCall *ast.CallExpr
 			ast.Inspect(as.Rhs[0], func(m ast.Node) bool {
 				if c, ok := m.(*ast.CallExpr); ok {
-					if f, ok := calleeObj(info, c).(*types.Func); ok && f.FullName() == "math.Min" && len(c.Args) == 2 {
+					if f, ok := calleeObj(info, c).(*types.Func); ok && len(c.Args) == 2 && (f.FullName() == "math.Min" || r.isClampHelper(f)) {
 						if r.mentionsLen(fn, c.Args[1]) || r.mentionsLen(fn, c.Args[0]) {
 							minCall = c
 						}
@@ -255,6 +255,29 @@ func ruleTaintAlloc(r *Run) {
 		}
 	}
 	r.Check("G4", "examined", true, 0, "allocation sizes derived from float-to-int conversions examined in the modules (%d unbounded)", n)
+}
+
+// isClampHelper: a two-parameter function of the package whose whole body returns a math.Min of its two
+// parameters (clampIndex(v, n) = min(v, n-1)).
+func (r *Run) isClampHelper(f *types.Func) bool {
+	def := r.P.Funcs[f]
+	if def == nil || def.Pkg.PkgPath != pkgDagaz || def.Body == nil || len(def.Body.List) != 1 {
+		return false
+	}
+	rs, ok := def.Body.List[0].(*ast.ReturnStmt)
+	if !ok || len(rs.Results) != 1 {
+		return false
+	}
+	found := false
+	ast.Inspect(rs.Results[0], func(n ast.Node) bool {
+		if c, ok := n.(*ast.CallExpr); ok {
+			if g, ok := calleeObj(def.Info(), c).(*types.Func); ok && g.FullName() == "math.Min" {
+				found = true
+			}
+		}
+		return true
+	})
+	return found
 }
 
 // mentionsLen: the expression contains len(…), directly or through a helper whose whole body returns an
